@@ -336,7 +336,15 @@ func (x *extractor) stmt(s ast.Stmt) []Item {
 			return []Item{{Kind: itLoop, Body: body, Cond: "range " + exprKey(y.X), Pos: y.Pos()}}
 		}
 		return nil
+	case *ast.LabeledStmt:
+		return x.stmt(y.Stmt)
 	case *ast.SwitchStmt:
+		// the one-armed `switch { default: … }` the helper substitution wraps a body in is that body
+		if y.Tag == nil && y.Init == nil && len(y.Body.List) == 1 {
+			if cc := y.Body.List[0].(*ast.CaseClause); cc.List == nil {
+				return x.block(cc.Body)
+			}
+		}
 		var out []Item
 		out = append(out, x.exprItems(y.Init)...)
 		arms := map[string][]Item{}
